@@ -6,8 +6,13 @@
 
     $match      keeps the documents the query selects, in order
     $sort       the stable sort by the key-by-key BSON order
-    $skip n     drops the first n documents (n ≥ 0);  $limit n  keeps the first n (n > 0)
-    $count      one document {name: number of inputs}; NO document when there is no input
+    $skip n     drops the first n documents; n must be a non-negative integer
+    $limit n    keeps the first n; n must be a positive integer (a whole-number double counts as
+                the integer it denotes; anything else — another type, a fraction, a count out of
+                range — is REJECTED: the pipeline fails whatever its input)
+    $count      one document {name: number of inputs}; NO document when there is no input; the
+                name must be a non-empty string without `.` and not starting with `$` (else REJECTED)
+    a stage     must be a document with exactly one field (else REJECTED)
     $project    (inclusion / exclusion) the projection of every document
     $unwind     one document per element of the array, the field replaced by the element; a
                 missing / null / empty-array field drops the document unless
@@ -20,7 +25,10 @@
                 value (a missing local value counts as null), in foreign order
     a pipeline  feeds the documents through its stages left to right
 
-  `none` = the oracle does not speak about this stage / parameter.
+  `none` = the oracle does not speak about this stage / parameter.  What MongoDB REJECTS is said
+  by `argRejected` / `stageRejected`; `specPipelineV` puts both together: a pipeline holding a
+  rejected stage is rejected as a whole (the server parses the pipeline before it runs it),
+  otherwise the verdict is the documents of `specPipeline`.
 -/
 import Spec.Match
 import Spec.Order
@@ -51,6 +59,12 @@ def specSortSpec : Fields → Option SortSpec
   | [] => some []
   | (k, .int i) :: r => if i = 1 ∨ i = -1 then (specSortSpec r).map ((k, i) :: ·) else none
   | _ :: _ => none
+
+/-- the integer a `$skip` / `$limit` argument denotes: an integer, or a double without fraction -/
+def sliceCount : Val → Option Int
+  | .int n => some n
+  | .dbl m e => if m % (2 ^ e : Int) = 0 then some (m / (2 ^ e : Int)) else none
+  | _ => none
 
 /-- a count-field name MongoDB accepts -/
 def countName (s : String) : Bool :=
@@ -117,13 +131,13 @@ def specStage (op : String) (opts : Val) (docs : List Val) : Option (List Val) :
       else (specSortSpec fs).map (fun spec => sortDocs (some spec) docs)
     | _ => none
   else if op = "$skip" then
-    match opts with
-    | .int n => if 0 ≤ n then some (docs.drop n.toNat) else none
-    | _ => none
+    match sliceCount opts with
+    | some n => if 0 ≤ n then some (docs.drop n.toNat) else none
+    | none => none
   else if op = "$limit" then
-    match opts with
-    | .int n => if 0 < n then some (docs.take n.toNat) else none
-    | _ => none
+    match sliceCount opts with
+    | some n => if 0 < n then some (docs.take n.toNat) else none
+    | none => none
   else if op = "$count" then
     match opts with
     | .str s =>
@@ -141,6 +155,41 @@ def specPipeline : List Val → List Val → Option (List Val)
   | [], docs => some docs
   | .doc [(op, opts)] :: rest, docs => (specStage op opts docs).bind (specPipeline rest)
   | _ :: _, _ => none
+
+/-! ### what MongoDB rejects -/
+
+/-- the argument of the stage is refused whatever the input: `$limit` wants a positive integer,
+    `$skip` a non-negative one, `$count` a field name -/
+def argRejected (op : String) (opts : Val) : Bool :=
+  if op = "$limit" then (match sliceCount opts with | some n => decide (n ≤ 0) | none => true)
+  else if op = "$skip" then (match sliceCount opts with | some n => decide (n < 0) | none => true)
+  else if op = "$count" then (match opts with | .str s => !countName s | _ => true)
+  else false
+
+/-- "A pipeline stage specification object must contain exactly one field", and that field's
+    argument must be acceptable -/
+def stageRejected : Val → Bool
+  | .doc [(op, opts)] => argRejected op opts
+  | _ => true
+
+/-- what a stage or pipeline answers: documents, or it is rejected -/
+inductive Verdict where
+  | docs (out : List Val)
+  | rejected
+
+/-- the answer `r` of the code agrees with the verdict: these documents / no documents at all -/
+def Verdict.agrees (r : R (List Val)) : Verdict → Prop
+  | .docs out => r = .ok out
+  | .rejected => ∀ out, r ≠ .ok out
+
+/-- one stage: rejected, or the documents of `specStage` -/
+def specStageV (op : String) (opts : Val) (docs : List Val) : Option Verdict :=
+  if argRejected op opts then some .rejected else (specStage op opts docs).map .docs
+
+/-- a pipeline: rejected as soon as one of its stages is (whatever the documents), else the
+    documents of `specPipeline` -/
+def specPipelineV (p docs : List Val) : Option Verdict :=
+  if p.any stageRejected then some .rejected else (specPipeline p docs).map .docs
 
 /-! ### `$group`: the partition and the accumulators -/
 
